@@ -57,7 +57,7 @@ pub fn check_views(rep: &mut Rep, w: &World, c: i128, s: TimeScale) {
         Ok((jt, ju, jtt, mtt, tj2k, ttd, taid, utcd)) => {
             let f12 = s != TimeScale::UTC && w.in_f12b_window(t);
             let dev_utc = w.from_tai_f12b(t, TimeScale::UTC);
-            let mut one = |rep: &mut Rep, name: &str, got: Duration, want: Option<i128>, is_utc: bool| {
+            let one = |rep: &mut Rep, name: &str, got: Duration, want: Option<i128>, is_utc: bool| {
                 if let Some(wv) = want {
                     let g = count_d(got);
                     if (g - wv).abs() > tol {
